@@ -728,6 +728,10 @@ class SsbGraphMinimizer:
                         e = self._reconnect(g, v_before, in_edges[0], v_after, True)
                         e["flow_level"] = e["flow_level"] + 1
                         self._update_edge_style(e)
+                    elif v.index == 0:
+                        # The first operation of a routine has no in edge either, but it is where the routine starts:
+                        # without it the routine would begin with whatever operation comes next in the list.
+                        continue
                     vs_to_delete.add(v)
             g.delete_vertices(vs_to_delete)
             vs_to_delete = set()
